@@ -46,6 +46,10 @@ class PyrConfig(object):
         self.apex = apex            # Pos or None
         self.rejects = rejects      # set of Pos rejected by the user filter
         self.accept = accept        # kind 'deep': the filter accepts exactly these positions
+        # how the object under test came to be: 'direct' = straight from the constructor; 'copy' = a shallow copy of a
+        # template of which another copy was first restricted to `sibling_apex`; 'deepcopy' = a deep copy of the template
+        self.origin = "direct"
+        self.sibling_apex = None
 
     def describe(self):
         return {
@@ -55,19 +59,30 @@ class PyrConfig(object):
             "filter_rejects": sorted(list(p) for p in self.rejects)[:40],
             "n_rejects": len(self.rejects),
             "n_accepted": len(self.accept) if self.accept is not None else None,
+            "origin": self.origin,
+            "sibling_apex": list(self.sibling_apex) if self.sibling_apex is not None else None,
         }
 
-    def build(self):
+    def build(self, coordsys=None):
+        kw = {} if coordsys is None else {"coordsys": coordsys}
         if self.kind == "generic":
             p = Pyramid.new_generic(self.depth)
         elif self.kind == "toast":
-            p = Pyramid.new_toast(self.depth)
+            p = Pyramid.new_toast(self.depth, **kw)
         elif self.kind == "deep":
             accept = self.accept
-            p = Pyramid.new_toast_filtered(self.depth, lambda t: t.pos in accept)
+            p = Pyramid.new_toast_filtered(self.depth, lambda t: t.pos in accept, **kw)
         else:
             rejects = self.rejects
-            p = Pyramid.new_toast_filtered(self.depth, lambda t: t.pos not in rejects)
+            p = Pyramid.new_toast_filtered(self.depth, lambda t: t.pos not in rejects, **kw)
+        if self.origin == "copy":
+            import copy
+            sibling = copy.copy(p)
+            sibling.subpyramid(self.sibling_apex)       # a different object: must not affect the one under test
+            p = copy.copy(p)
+        elif self.origin == "deepcopy":
+            import copy
+            p = copy.deepcopy(p)
         if self.apex is not None:
             p = p.subpyramid(self.apex)
         return p
@@ -112,6 +127,17 @@ class PyrConfig(object):
         return out
 
 
+def draw_origin(ch, cfg):
+    o = ch.draw(6, kind="object_origin")
+    if o == 4:
+        cfg.origin = "deepcopy"
+    elif o == 5:
+        cfg.origin = "copy"
+        n = ch.draw(min(cfg.depth, 3) + 1, kind="sibling_apex_n")
+        cfg.sibling_apex = Pos(n, ch.draw(2 ** n, kind="sibling_apex_x"), ch.draw(2 ** n, kind="sibling_apex_y"))
+    return cfg
+
+
 def thorough():
     import os
     return os.environ.get("TOASTYSIM_TIER") == "thorough"
@@ -120,11 +146,11 @@ def thorough():
 def draw_deep_pyramid(ch):
     """A deep (depth 10-12) TOAST pyramid whose filter accepts only the paths to 1-3 leaves (plus a few stray
     siblings without children): few tiles, but the code paths toasty takes for depth > 9."""
-    depth = 10 + ch.draw(3, kind="deep_depth")
+    depth = (10, 11, 12, 6, 7, 8, 9)[ch.draw(7, kind="deep_depth")]     # also the mid-size depths between 'small' and 'deep'
     if ch.draw(3, kind="deep_generic") == 2:
         # a generic (unfiltered) deep pyramid restricted to a small sub-pyramid
         n = depth - ch.draw(4, kind="apex_up")
-        return PyrConfig("generic", depth, Pos(n, ch.draw(2 ** n, kind="apex_x"), ch.draw(2 ** n, kind="apex_y")), set())
+        return draw_origin(ch, PyrConfig("generic", depth, Pos(n, ch.draw(2 ** n, kind="apex_x"), ch.draw(2 ** n, kind="apex_y")), set()))
     accept = set()
     first = None
     for _ in range(1 + ch.draw(3, kind="deep_nleaves")):
@@ -141,7 +167,7 @@ def draw_deep_pyramid(ch):
     if ch.draw(2, p0=0.6, kind="use_apex"):
         n = ch.draw(depth + 1, kind="apex_n")
         apex = Pos(n, first.x >> (depth - n), first.y >> (depth - n))
-    return PyrConfig("deep", depth, apex, set(), accept=accept)
+    return draw_origin(ch, PyrConfig("deep", depth, apex, set(), accept=accept))
 
 
 def draw_pyramid(ch, max_generic=4, max_toast=3, kinds=(0, 1, 2), min_depth=0, allow_deep=False):
@@ -163,7 +189,32 @@ def draw_pyramid(ch, max_generic=4, max_toast=3, kinds=(0, 1, 2), min_depth=0, a
     if ch.draw(2, p0=0.5, kind="use_apex"):
         n = ch.draw(depth + 1, kind="apex_n")
         apex = Pos(n, ch.draw(2 ** n, kind="apex_x"), ch.draw(2 ** n, kind="apex_y"))
-    return PyrConfig(kind, depth, apex, rejects)
+    return draw_origin(ch, PyrConfig(kind, depth, apex, rejects))
+
+
+# progress reporting is a configuration of every entry point (every command-line tool turns it on): 0 = off,
+# 1 = on with log-like output (stdout not a terminal), 2 = on with terminal-like output (a Jupyter kernel: JPY_PARENT_PID set)
+PROGRESS = {}
+
+
+def draw_progress(ch, res=None):
+    import os
+    mode = (0, 0, 1, 2)[ch.draw(4, kind="progress_reporting")]
+    PROGRESS.clear()
+    if mode:
+        PROGRESS["cli_progress"] = True
+    if mode == 2:
+        os.environ["JPY_PARENT_PID"] = "1"      # removed again by the engine when the run ends
+    else:
+        os.environ.pop("JPY_PARENT_PID", None)
+    if res is not None:
+        res.setdefault("config", {})["progress_reporting"] = ("off", "log-like", "terminal-like")[mode]
+        res.setdefault("extra", {})["progress_%d" % mode] = 1
+    return mode
+
+
+def pkw():
+    return dict(PROGRESS)
 
 
 WORKER_CHOICES = (2, 3, 1, 4, 6)
